@@ -490,7 +490,8 @@ fn run_loom_scenario(sc: &Scenario, max_preemptions: Option<usize>) {
 
 fn loom_child(name: &str, thorough: bool) -> ! {
     let sc = scenarios(true).into_iter().find(|s| s.name == name).unwrap_or_else(|| vcommon::machinery_failure("unknown loom scenario"));
-    let bound = if thorough { std::env::var("VERIF_LOOM_BOUND").ok().and_then(|s| s.parse().ok()).or(Some(5)) } else { Some(3) };
+    let _ = thorough;
+    let bound: Option<usize> = std::env::var("VERIF_LOOM_BOUND").ok().and_then(|s| s.parse().ok()).or(Some(3));
     run_loom_scenario(&sc, bound);
     println!("LOOM-EXECUTIONS {}", LOOM_EXECUTIONS.load(StdOrdering::Relaxed));
     std::process::exit(0)
@@ -501,30 +502,77 @@ fn loom_leg(ctx: &Ctx) {
     let thorough = !ctx.quick();
     let exe = std::env::current_exe().unwrap();
     let scs = scenarios(thorough);
+    // Each scenario runs in a child process under a wall-clock limit; if the preemption bound
+    // cannot be completed within the limit the next lower bound is tried, and the bound that was
+    // completed is reported per scenario (never a capped run called complete).
+    let bounds: Vec<usize> = if thorough { vec![5, 4, 3] } else { vec![3, 2] };
+    let limit = std::time::Duration::from_secs(if thorough { 240 } else { 40 });
     let results = vcommon::par_map(&scs, vcommon::ncpu(), |_, sc| {
-        let out = std::process::Command::new(&exe)
-            .arg("--loom-scenario")
-            .arg(sc.name)
-            .env("VERIF_TIER", if thorough { "thorough" } else { "quick" })
-            .env_remove("LD_PRELOAD")
-            .output();
-        match out {
-            Ok(o) => {
-                let stdout = String::from_utf8_lossy(&o.stdout).to_string();
-                let stderr = String::from_utf8_lossy(&o.stderr).to_string();
-                let execs = stdout.lines().find_map(|l| l.strip_prefix("LOOM-EXECUTIONS ").and_then(|n| n.trim().parse::<u64>().ok()));
-                (o.status.code(), execs, stderr)
+        let mut last = (None, None, String::from("no bound completed within the time limit"), 0usize);
+        for &b in &bounds {
+            let child = std::process::Command::new(&exe)
+                .arg("--loom-scenario")
+                .arg(sc.name)
+                .env("VERIF_TIER", if thorough { "thorough" } else { "quick" })
+                .env("VERIF_LOOM_BOUND", b.to_string())
+                .env_remove("LD_PRELOAD")
+                .stdout(std::process::Stdio::piped())
+                .stderr(std::process::Stdio::piped())
+                .spawn();
+            let mut child = match child {
+                Ok(c) => c,
+                Err(e) => return (None, None, format!("spawn failed: {}", e), b),
+            };
+            let t0 = Instant::now();
+            let mut timed_out = false;
+            loop {
+                match child.try_wait() {
+                    Ok(Some(_)) => break,
+                    Ok(None) => {
+                        if t0.elapsed() > limit {
+                            let _ = child.kill();
+                            timed_out = true;
+                            break;
+                        }
+                        std::thread::sleep(std::time::Duration::from_millis(50));
+                    }
+                    Err(_) => break,
+                }
             }
-            Err(e) => (None, None, format!("spawn failed: {}", e)),
+            if timed_out {
+                let _ = child.wait();
+                continue;
+            }
+            match child.wait_with_output() {
+                Ok(o) => {
+                    let stdout = String::from_utf8_lossy(&o.stdout).to_string();
+                    let stderr = String::from_utf8_lossy(&o.stderr).to_string();
+                    let execs = stdout.lines().find_map(|l| l.strip_prefix("LOOM-EXECUTIONS ").and_then(|n| n.trim().parse::<u64>().ok()));
+                    last = (o.status.code(), execs, stderr, b);
+                    break;
+                }
+                Err(e) => {
+                    last = (None, None, format!("wait failed: {}", e), b);
+                    break;
+                }
+            }
         }
+        last
     });
     let mut total_exec = 0u64;
     let mut samples = vec![];
-    for (sc, (code, execs, stderr)) in scs.iter().zip(results) {
+    let mut all_top = true;
+    for (sc, (code, execs, stderr, bound)) in scs.iter().zip(results) {
+        if bound != bounds[0] {
+            all_top = false;
+        }
         match (code, execs) {
             (Some(0), Some(n)) => {
                 total_exec += n;
-                samples.push(json!({"scenario": sc.name, "executions": n}));
+                samples.push(json!({"scenario": sc.name, "executions": n, "preemption_bound_completed": bound}));
+            }
+            (None, None) if stderr.starts_with("no bound completed") => {
+                samples.push(json!({"scenario": sc.name, "executions": 0, "preemption_bound_completed": null, "note": stderr}));
             }
             _ => {
                 // a loom failure: classify by the LAW marker, or deadlock
@@ -558,8 +606,8 @@ fn loom_leg(ctx: &Ctx) {
         distinct_nontrivial: scs.iter().filter(|s| s.threads.iter().any(|t| t.contains(&LOp::Rescind))).count() as u64,
         rule: "loom executions (interleavings x permitted reorderings) over the listed scenarios; non-trivial = scenarios containing a concurrent rescind".into(),
         samples,
-        exhaustive: true,
-        bounds: json!({"preemption_bound": if thorough { "5 (VERIF_LOOM_BOUND overrides)" } else { "3" }, "scenarios": scs.iter().map(|s| s.name).collect::<Vec<_>>()}),
+        exhaustive: all_top,
+        bounds: json!({"preemption_bounds_tried": bounds, "per_scenario_wall_limit_s": limit.as_secs(), "scenarios": scs.iter().map(|s| s.name).collect::<Vec<_>>(), "note": "the bound completed per scenario is in samples"}),
         wall_s: t0.elapsed().as_secs_f64(),
     });
 }
